@@ -13,7 +13,9 @@
 (*     recorded as a CRASH event, a hang as TIMEOUT; no action explains    *)
 (*     either, so the trace is rejected at that case.  Ordinary events of  *)
 (*     those drivers are consumed without judging their values (that is    *)
-(*     the other properties' job).                                         *)
+(*     the other properties' job), except that an event in which the guard *)
+(*     bytes around a caller-supplied buffer were damaged is a GUARD event,*)
+(*     which no action explains either.                                    *)
 (***************************************************************************)
 EXTENDS Naturals, Sequences, TLC, Json, IOUtils
 
@@ -33,6 +35,7 @@ Accept(e) ==
     CASE e.op = "allocbase" -> AllocBase(e)
       [] e.op = "allocfault" -> AllocFaultOK(e)
       [] e.op \in {"CRASH", "TIMEOUT"} -> FALSE
+      [] e.op = "GUARD" -> FALSE                  \* guard bytes around the caller's buffer were overwritten
       [] OTHER -> TRUE
 
 (* known findings (known_findings.json), keyed by call and outcome class *)
